@@ -706,3 +706,11 @@ fire("c18-lower-contraction-balanced-fold-loses-spare", "C18", COMPILER,
      "    return functools.reduce(bin_op, terms)",
      "    spare = None\n    while len(terms) > 1:\n        if len(terms) % 2:\n            spare = terms.pop()\n        terms = [bin_op(lhs, rhs) for lhs, rhs in zip(terms[0::2], terms[1::2])]\n    result = terms[0]\n    if spare is not None:\n        result = bin_op(result, spare)\n    return result",
      "R18.8", "_lower_contraction")
+
+fire("c08-occurrence-count-over-dict-of-terms", "C08", CNF,
+     "    for term in terms:\n        counts.update(reduced_vars & term.input_vars)\n",
+     "    term_vars = {term: reduced_vars & term.input_vars for term in terms}\n    for term_reduced_vars in term_vars.values():\n        counts.update(term_reduced_vars)\n",
+     "R08.10", "eager_contraction_generic_recursive")
+silent("c08-s-occurrence-count-over-list", "C08", CNF,
+       "    for term in terms:\n        counts.update(reduced_vars & term.input_vars)\n",
+       "    per_term = [reduced_vars & term.input_vars for term in terms]\n    for term_reduced_vars in per_term:\n        counts.update(term_reduced_vars)\n")
